@@ -44,7 +44,8 @@ def real_process_exploration(rep):
     if not os.path.exists(script):
         rep.extra['real_process_probe'] = 'not built'
         return
-    env = dict(os.environ, PYTHONPATH='/repo')
+    from common import REPO
+    env = dict(os.environ, PYTHONPATH=REPO, VERIF_REPO=REPO)
     p = subprocess.run(['/venv/bin/python', '-W', 'ignore', script], stdout=subprocess.PIPE, stderr=subprocess.STDOUT, timeout=300, env=env)
     out = p.stdout.decode(errors='replace')
     rep.extra['real_process_probe'] = out[-1500:]
